@@ -32,9 +32,14 @@ def corpus():
 def run(rep):
     quick = rep.tier == "quick"
     # (a) the model
-    res = tlc.run(rep.pid, "Slots", SLOTS_CFG, timeout=1200, tag="slots", heap="6g")
+    res = tlc.run(rep.pid, "Slots", SLOTS_CFG, env={"TIER": rep.tier}, timeout=1200, tag="slots", heap="6g")
     rep.add_tlc("Slots (all permutations of locals / cell_vars / free_vars of 5 closure programs, wiring by name)", res)
     rep.spaces.append({"space": "Slots: layouts x steps of the abstract closure programs", "cases": res.distinct, "complete": True})
+    # vacuity guard: the same model with closures wired by position must violate LayoutIndependent
+    bad = tlc.run(rep.pid, "Slots", SLOTS_CFG, env={"TIER": "quick", "WIRING": "index"}, timeout=600, tag="slots_selftest", heap="6g")
+    if "LayoutIndependent" not in bad.violated:
+        raise Machinery("Slots self-test: index-based wiring was not rejected (%s)" % (bad.violated or bad.errors[:2]))
+    rep.notes["slots_selftest"] = "index-based wiring violates LayoutIndependent after %d states" % bad.distinct
     # (b) programs
     fam_cases = c05.enumerate_programs(rep, "C05", rep.tier, tag="enum_closure", env={"FAMS": "CL HO EO"})
     progs = [{"id": "F%d" % c["id"], "fam": c["fam"], "par": c["par"], "prog": c["prog"]} for c in fam_cases]
